@@ -18,6 +18,7 @@
 
 #include <stdio.h>
 #include <stdlib.h>
+#include <math.h>
 
 #include "numeric.h"
 #include "algebra.h"
@@ -121,6 +122,20 @@ void SolveLSE(matrix *mx, dvector *solution)
 
   /* (*X).row is the number of X, so is equal to the number of unknowns variables */
   for(k = 0; k < X->row; k++){
+    /* partial pivoting: a pivot can vanish during the elimination, not only in the input */
+    l = (long int)k;
+    for(i = k+1; i < X->row; i++){
+      if(fabs(X->data[i][k]) > fabs(X->data[l][k]))
+        l = (long int)i;
+    }
+    if(l != (long int)k){
+      for(j = 0; j < X->col; j++){
+        tmp = X->data[l][j];
+        X->data[l][j] = X->data[k][j];
+        X->data[k][j] = tmp;
+      }
+    }
+
     for(i = k+1; i < X->row; i++){
       if(FLOAT_EQ(X->data[i][k], 0, 1e-4) == 0){ /* if the value is not 0 */
         if(FLOAT_EQ(X->data[k][k], 0, 1e-4) == 1){
